@@ -222,17 +222,27 @@ def smCase : P String := do
   endOfLine
   pure (joinSp (tokens (joinSp outs)))
 
-/-! ### `collect_features` cases: `cf <traversal features> <access features> (n | s <user features>)`;
-    the result is printed sorted by name with, per name, the features in their relative order -/
+/-! ### `collect_features` cases: `cf <configured> <traversal> <access> (n | s <user features>)`;
+    the collected list is printed sorted by name (stable), then the configured model extended by it
+    (slots of new names depend on `HashMap` order, so only the configured names' slots are printed) -/
 
 def cfCase : P String := do
+  let cfg ← listOf namedFeatureP
   let tr ← listOf namedFeatureP
   let ac ← listOf namedFeatureP
   let us ← optOf (listOf namedFeatureP)
   endOfLine
+  let m0 : SM := StateModel.new cfg
   match collectFeatures tr ac us with
   | .error e => pure ("err " ++ e.name)
-  | .ok fs => pure ("ok " ++ listS (sortByName (fs.map (fun (n, f) => (n, s!"{n}:{featS f}")))))
+  | .ok fs =>
+    let collected := "ok " ++ listS (sortByName (fs.map (fun (n, f) => (n, s!"{n}:{featS f}"))))
+    match m0.extend fs with
+    | .error e => pure (collected ++ " | err " ++ e.name)
+    | .ok m =>
+      pure (joinSp (tokens (joinSp [collected, "| ok len", toString m.len,
+        "cfgidx", joinSp (cfg.map (fun (n, _) => optS toString (m.getIndex n))),
+        "feats", listS (sortByName (m.iter.map (fun (n, f) => (n, s!"{n}:{featS f}"))))])))
 
 def case : P String := do
   let kind ← next
